@@ -194,14 +194,16 @@ fn one_case(run: &Run, case: u64) {
 /// Scale: one tree of 10 040 files backed up with one entry per index hunk (hunks in two
 /// index subdirectories), restored and compared.
 fn many_hunks(run: &Run) {
+    // once with one entry per hunk (two index subdirectories), once with everything in one hunk
+    for o in [crate::history::MANY_HUNKS_OPTS, Opts { hunk: 100_000, ..crate::history::MANY_HUNKS_OPTS }] {
+    let label = format!("10 040-file tree, {}", o.label());
     let mut w = crate::history::many_hunks_world("c01big", run.seed);
-    let o = crate::history::MANY_HUNKS_OPTS;
     run.eval();
     let r = w.backup(o);
     let b = r.backup.as_ref().unwrap();
     let replay = json!({"many_hunks": true});
     if !b.clean() {
-        run.violation("backup-reported-errors", format!("[10 040-file tree, 1 entry per hunk] {}", b.describe()), replay);
+        run.violation("backup-reported-errors", format!("[{label}] {}", b.describe()), replay);
         return;
     }
     match restore_and_compare(&w.arch, Some(0), &w.snap, &w.sc, &CmpOpts::default()) {
@@ -210,7 +212,8 @@ fn many_hunks(run: &Run) {
             run.count("restores_of_versions_with_more_than_10000_hunks", 1);
             run.count("entries_compared", w.snap.len() as u64);
         }
-        Err(m) => run.violation(m.class, format!("[10 040-file tree, 1 entry per hunk] {}", m.detail), replay),
+        Err(m) => run.violation(m.class, format!("[{label}] {}", m.detail), replay),
+    }
     }
 }
 
@@ -232,6 +235,6 @@ pub fn run(tier: Tier, replay: Option<Value>) -> i32 {
             "release profile, debug assertions off",
         ],
         None,
-        &[("restores_compared", 20), ("class_multi_block_file", 3), ("class_combined_block_2plus_files", 3), ("class_special_mode_bits", 3), ("restores_of_versions_with_more_than_10000_hunks", 1)],
+        &[("restores_compared", 20), ("class_multi_block_file", 3), ("class_combined_block_2plus_files", 3), ("class_special_mode_bits", 3), ("restores_of_versions_with_more_than_10000_hunks", 2)],
     )
 }
